@@ -297,6 +297,7 @@ type Program struct {
 	Prefixes    map[string]string // extra prefixes
 	KeyOrder    []int             // optional permutation for rendering (C15)
 	Undefined   []string          // names listed under a level but not defined
+	Plain       bool              // names and messages are written as plain (unquoted) YAML scalars where the text allows it
 }
 
 func ClassIRI(i int) string { return fmt.Sprintf("%sC%d", ExNS, i) }
@@ -308,6 +309,10 @@ func (p Program) ProfileYAML() string {
 	name := p.Name
 	if name == "" {
 		name = "P"
+	}
+	yamlName := yamlName
+	if p.Plain {
+		yamlName = yamlPlain
 	}
 	fmt.Fprintf(&sb, "profile: %s\nprefixes:\n  ex: %s\n", yamlName(name), ExNS)
 	for k, v := range p.Prefixes {
@@ -335,7 +340,9 @@ func (p Program) ProfileYAML() string {
 	sb.WriteString("validations:\n")
 	for _, v := range p.Validations {
 		fmt.Fprintf(&sb, "  %s:\n", yamlName(v.Name))
-		if v.Message != "" {
+		if v.Message != "" && p.Plain {
+			fmt.Fprintf(&sb, "    message: %s\n", yamlPlain(v.Message))
+		} else if v.Message != "" {
 			fmt.Fprintf(&sb, "    message: %q\n", v.Message)
 		}
 		fmt.Fprintf(&sb, "    targetClass: ex.C%d\n", v.Class)
@@ -784,6 +791,25 @@ func yamlName(n string) string {
 		return n
 	}
 	return "\"" + strings.NewReplacer("\\", "\\\\", "\"", "\\\"").Replace(n) + "\""
+}
+
+// yamlPlain writes a text without quotes when it can stand as a plain scalar - also when YAML then
+// resolves it to a number, a boolean or a date (404, true, 2024-01-01): for a name or a message it is
+// still the text that was written.
+func yamlPlain(n string) string {
+	ok := n != "" && n != "~" && strings.ToLower(n) != "null"
+	for i, r := range n {
+		if !(r >= 'a' && r <= 'z' || r >= 'A' && r <= 'Z' || r >= '0' && r <= '9' || r == '_' || r == '-' || r == '.' || r == '+' || (r == ' ' && i > 0 && i < len(n)-1)) {
+			ok = false
+		}
+	}
+	if ok && (n[0] == '-' && len(n) == 1) {
+		ok = false
+	}
+	if ok {
+		return n
+	}
+	return yamlName(n)
 }
 
 // LevelsOf lists the levels a validation is listed under ("" = defined but not listed).
